@@ -212,7 +212,9 @@ func (o *object) call(this Value, argumentList []Value, eval bool, frm frame) Va
 
 	case bindFunctionObject:
 		// TODO Passthrough site, do not enter a scope
-		argumentList = append(fn.argumentList, argumentList...)
+		// 15.3.4.5.1: a new list for every call; appending to fn.argumentList in
+		// place would share its spare capacity between (re-entrant) calls.
+		argumentList = append(fn.argumentList[:len(fn.argumentList):len(fn.argumentList)], argumentList...)
 		return fn.target.call(fn.this, argumentList, false, frm)
 
 	case nodeFunctionObject:
